@@ -551,6 +551,10 @@ func (s *Shared) schedMain(prop, tier string) {
 	case prop == "C13":
 		cases = s.c13Cases(tier)
 	}
+	var pairs []pairCase
+	if prop == "C07" && !shapes {
+		pairs = c07Pairs(tier)
+	}
 	explore.Main(explore.Options{
 		Prop:     prop,
 		Level:    "model_checking",
@@ -563,7 +567,7 @@ func (s *Shared) schedMain(prop, tier string) {
 			if prop == "C05" {
 				b-- // cancellation is an extra event at every point
 			}
-			if prop == "C13" {
+			if prop == "C13" || prop == "C07" {
 				b = 2
 			}
 			if prop == "C04" {
@@ -576,6 +580,17 @@ func (s *Shared) schedMain(prop, tier string) {
 		},
 		Scenarios: func(tier string) []*explore.Scenario {
 			var out []*explore.Scenario
+			for _, pc := range pairs {
+				pc := pc
+				op := Op{Text: pc.Text, Vars: pc.A}
+				doc, errs := s.Parse(op)
+				if errs != nil {
+					panic(fmt.Sprintf("pair corpus operation invalid: %s: %v", pc.Text, errs))
+				}
+				out = append(out, &explore.Scenario{Name: "pair: " + pc.Name, Meta: pc, New: func() explore.Instance {
+					return &pairInst{S: s, Plan: pc.Plan, Text: pc.Text, Vars: [2]map[string]any{pc.A, pc.B}, Doc: doc}
+				}})
+			}
 			for _, c := range cases {
 				c := c
 				doc, errs := s.Parse(c.Op)
